@@ -4,6 +4,7 @@ import (
 	"bytes"
 	"fmt"
 	"reflect"
+	"strings"
 	"sync"
 	"time"
 	"verif/mcbor"
@@ -261,6 +262,45 @@ func init() {
 			c08Eval(c, c08stats, a, true)
 		}, nil
 	}
+	// a derived profile that re-declares a base claim with a stricter accessor: the gates consult ITS accessors
+	Scenarios["c08.shadowing-profile"] = func() (choice.Scenario, func() any) {
+		return func(c *choice.Ctx) {
+			a := *c02Claims()[0]
+			a.Canon, a.Profile = ExtShadowName, sp(ExtShadowName)
+			vs := []*string{sp("https://verifier.example"), nil, sp("http://verifier.example"), sp("x")}[c.Choose("service-indicator", 4)]
+			a.VSI = vs
+			want := vs == nil || strings.HasPrefix(*vs, "https://")
+			js := c.Choose("serialisation", 2) == 1
+			c08stats.StateStr(fmt.Sprint("shadow", vs, js))
+			c08stats.Trans.Add(2)
+			var y psatoken.IClaims
+			var derr, verr error
+			if js {
+				y, derr = psatoken.DecodeClaimsFromJSON(wireJSON(&a))
+				_, verr = psatoken.DecodeAndValidateClaimsFromJSON(wireJSON(&a))
+			} else {
+				y, derr = psatoken.DecodeClaimsFromCBOR(mcbor.Encode(wireTree(&a, true)))
+				_, verr = psatoken.DecodeAndValidateClaimsFromCBOR(mcbor.Encode(wireTree(&a, true)))
+			}
+			tag := fmt.Sprintf("shadowing-profile:json=%v", js)
+			if derr != nil {
+				c.Failf("C08:decode-error:"+tag, "%v", derr)
+				return
+			}
+			if (verr == nil) != want {
+				c.Failf(fmt.Sprintf("C08:DecodeAndValidate:verdict:%s:want-accept=%v", tag, want), "decode-and-validate err=%v for a token of the derived profile whose re-declared claim is %v", verr, vs)
+			}
+			if (y.Validate() == nil) != want {
+				c.Failf(fmt.Sprintf("C08:Validate-of-decoded:%s:want-accept=%v", tag, want), "Validate() of the decoded claims-set disagrees with the profile's rule for %v", vs)
+			}
+			if err := (&psatoken.Evidence{}).SetClaims(y); (err == nil) != want {
+				c.Failf(fmt.Sprintf("C08:SetClaims:%s:want-accept=%v", tag, want), "SetClaims err=%v", err)
+			}
+			if b, err := psatoken.ValidateAndEncodeClaimsToCBOR(y); (err == nil) != want || (err != nil && len(b) != 0) {
+				c.Failf(fmt.Sprintf("C08:ValidateAndEncodeClaimsToCBOR:%s:want-accept=%v", tag, want), "err=%v, %d bytes", err, len(b))
+			}
+		}, nil
+	}
 	// a component object the caller still holds is made malformed AFTER the claims-set was validated / attached:
 	// every gate judges the claims-set as it is now
 	Scenarios["c08.component-changed-after-validation"] = func() (choice.Scenario, func() any) {
@@ -416,6 +456,7 @@ func init() {
 			}
 		}
 		exploreChoice(r, "c08.component-changed-after-validation", -1, dl)
+		exploreChoice(r, "c08.shadowing-profile", -1, dl)
 		exploreChoice(r, "c08.strict-profile", map[bool]int{false: 2, true: 3}[thorough(r)], dl)
 		exploreChoiceOpts(r, registerAfterPriorCalls("c08.coarse.cheap.p2.b1"), 2, dl, 1)
 		exploreChoiceOpts(r, registerAfterPriorCalls("c08.coarse.cheap.p1.b1"), 2, dl, 1)
